@@ -136,11 +136,27 @@ func runIsolated(id string, caseObj interface{}, a *args, idx int) (st *stats, c
 	exe, _ := os.Executable()
 	ctx, cancel := context.WithTimeout(context.Background(), 60*time.Second)
 	defer cancel()
-	cmd := exec.CommandContext(ctx, "sh", "-c", fmt.Sprintf("ulimit -v %d; exec %s %s -replay %s -out %s -tier %s -seed %d", isoVmemKB, exe, id, rp, dir, a.tier, a.seed))
+	cmd := exec.CommandContext(ctx, "sh", "-c", fmt.Sprintf("%sexec %s %s -replay %s -out %s -tier %s -seed %d", map[bool]string{true: "", false: fmt.Sprintf("ulimit -v %d; ", isoVmemKB)}[isoVmemKB == 0], exe, id, rp, dir, a.tier, a.seed))
 	out, err := cmd.CombinedOutput()
 	if err != nil {
 		t := ""
+		if k := strings.Index(string(out), "WARNING: DATA RACE"); k >= 0 {
+			// the two conflicting accesses with their top frames
+			lines := strings.Split(string(out)[k:], "\n")
+			for i, ln := range lines {
+				if i > 40 {
+					break
+				}
+				ln = strings.TrimSpace(ln)
+				if strings.HasPrefix(ln, "WARNING: DATA RACE") || strings.HasPrefix(ln, "Write at") || strings.HasPrefix(ln, "Read at") || strings.HasPrefix(ln, "Previous ") || strings.HasPrefix(ln, "github.com/marekgalovic/anndb/") {
+					t += ln + " | "
+				}
+			}
+		}
 		for _, ln := range strings.Split(string(out), "\n") {
+			if t != "" {
+				break
+			}
 			if strings.HasPrefix(ln, "panic:") || strings.HasPrefix(ln, "fatal error:") || strings.Contains(ln, "level=fatal") || strings.Contains(ln, "[signal ") {
 				t += ln + " | "
 			}
